@@ -84,9 +84,25 @@ def compile_clause(expr):
     return code, olds
 
 
-def spec_env():
+def spec_env(module=None):
+    import re as _re
     from fparser.common.splitline import String, ParenString
     env = {"is_String": lambda x: isinstance(x, String), "is_ParenString": lambda x: isinstance(x, ParenString)}
+
+    def _pat(p):
+        if isinstance(p, str):
+            p = getattr(module, p)
+        return p if hasattr(p, "pattern") else p.__self__      # bound .match / .search of a compiled pattern
+
+    def _m(p, s, kind="match"):
+        return getattr(_pat(p), kind)(s)
+
+    env["re_matched"] = lambda p, s, kind="match": _m(p, s, kind) is not None
+    env["re_start"] = lambda p, s, g, kind="match": _m(p, s, kind).start(g)
+    env["re_end"] = lambda p, s, g, kind="match": _m(p, s, kind).end(g)
+    env["re_group"] = lambda p, s, g, kind="match": _m(p, s, kind).group(g)
+    env["is_digits"] = lambda s: _re.fullmatch(r"[0-9]+", s) is not None
+    env["nonnull"] = lambda x: x
     for name, sp in C.SPECS.items():
         params = ", ".join(p for p, _ in sp["params"])
         tree = ast.parse("lambda %s: %s" % (params, sp["body"]), mode="eval")
@@ -108,7 +124,8 @@ class Runner:
         C.load_all()
         self.con = C.CONTRACTS[fid]
         self.fn = resolve(fid)
-        self.env = spec_env()
+        self.env = spec_env(importlib.import_module(fid.split(":")[0]))
+        self.assume = {k: compile_clause(v) for k, v in self.con.assume.items()}
         self.req = {k: compile_clause(v) for k, v in self.con.requires.items()}
         self.ens = {k: compile_clause(v) for k, v in self.con.ensures.items()}
         self.exc = {e: {k: compile_clause(v) for k, v in d.items()} for e, d in self.con.raises.items()}
@@ -126,6 +143,14 @@ class Runner:
         pre = copy.deepcopy(kwargs)
         failures = []
         observed = {}
+        # model conformance: every assumed axiom of the contract must hold on the real library
+        for k, (code, olds) in self.assume.items():
+            try:
+                ok = bool(eval(code, env))
+            except Exception as ex:
+                ok = False
+            if not ok:
+                failures.append(("assume." + k, "assumed axiom is false on CPython"))
         try:
             result = self.fn(**copy.deepcopy(kwargs))
             raised = None
@@ -147,6 +172,8 @@ class Runner:
                     if not ok:
                         failures.append(("raises.%s.%s" % (n, k), ""))
         else:
+            if self.con.returns == "bool" and not isinstance(result, bool):
+                result = bool(result)       # the contract speaks about truthiness only
             observed["result"] = repr(result)
             for k, (code, olds) in self.ens.items():
                 e2 = dict(env)
